@@ -244,6 +244,34 @@ class LogRecorder:
         self.emit({"ev": "add", "s": s + 1, "k": kb(k), "v": v, "draws_f": draws,
                    "refilled": refilled, "fresh_ok": fresh_ok, "ptr_before": ptr0})
 
+    def add_big(self, s, k, v):
+        """A multiplicity beyond 2^32 with every draw placed at 0 (each step succeeds): the counter runs to
+        the ceiling and the call returns; n_added grows by the whole multiplicity."""
+        self.key(k)
+        sk = self.slots[s]
+        cf = self.cf
+        ptr0 = int(sk.rand_ptr)
+        if ptr0 + cf.umax + 2 > 2048:
+            self.set_ptr(s, 2048)
+            ptr0 = 2048
+        if ptr0 == 2048:
+            # the batch is exhausted: consume one ordinary unit add so that a fresh batch is in place
+            self.add(s, k, 1)
+            ptr0 = int(sk.rand_ptr)
+        m = int(min(sk.cms[r, c - 1] for r, c in enumerate(self.keys[k])))
+        for c in range(m, cf.umax + 1):
+            if c >= cf.nr:
+                self.need_p.add(c - cf.nr)
+        n = cf.umax + 2
+        sk.rand_nums[ptr0:ptr0 + n] = 0.0
+        draws = [0.0] * n
+        old = sk.rand_nums.copy()
+        sk.add(k, v)
+        refilled = not np.array_equal(old, sk.rand_nums)
+        self.floats_draw += draws
+        self.emit({"ev": "add_big", "s": s + 1, "k": kb(k), "v": min(v, cf.umax + 5), "vbig": digits(v), "draws_f": draws,
+                   "refilled": refilled, "fresh_ok": True, "ptr_before": ptr0})
+
     def _batch(self, s, items, call, ev):
         """items: [(key, v)] the unit operations the call performs, in order."""
         sk = self.slots[s]
@@ -438,7 +466,10 @@ def random_history(rng, focus=None, cfgs=None):
             rec.add(s, k, rng.choice([1, 3, 12]), placer("lo", rng) if rng.random() < 0.5 else None)
             continue
         if focus == "ceiling" and rng.random() < 0.5:
-            rec.add(s, k, 40, placer("lo", rng))        # every draw succeeds: races to the ceiling
+            if rng.random() < 0.25:
+                rec.add_big(s, k, rng.choice([2**32, 2**32 + 7, 2**33 + 1, 2**40]))
+            else:
+                rec.add(s, k, 40, placer("lo", rng))        # every draw succeeds: races to the ceiling
             continue
         if focus == "batch" and rng.random() < 0.7:
             y = rng.random()
